@@ -183,6 +183,20 @@ def nodes_calling(cfg, pred):
 def is_self_call(c, name):
     return isinstance(c.func, ast.Attribute) and c.func.attr == name and isinstance(c.func.value, ast.Name) and c.func.value.id == 'self'
 
+def outer_loops(g):
+    """while-loops of the function that are not nested in another loop: the ones that keep a background task alive"""
+    out = []
+    for n in g.nodes:
+        if n.kind == 'test' and isinstance(n.ast, ast.While):
+            t = n.ast; nested = False
+            while hasattr(t, '_parent') and t is not g.fn:
+                t = t._parent
+                if isinstance(t, (ast.While, ast.For, ast.AsyncFor)):
+                    nested = True
+            if not nested:
+                out.append(n)
+    return out
+
 def stmt_key(node):
     """normalised statement text (never a line number) for instance keys"""
     try:
@@ -438,7 +452,7 @@ def close_does(chk, program, rule='CLOSE-DOES'):
     # every background loop re-tests CLOSED
     for lq in (f"{BASE}._receive_loop", f"{BASE}._process_queue"):
         lg = cfg_of(program, lq)
-        loops = [n for n in lg.nodes if n.kind == 'test' and isinstance(n.ast, ast.While)]
+        loops = outer_loops(lg)
         chk.check(bool(loops), rule, f"{lq}::has-loop", file=IO, line=lg.fn.lineno, func=lq, expected='while loop', found=len(loops), nontrivial=False)
         for w in loops:
             v = eval_under_closed(w.ast.test)
@@ -612,7 +626,7 @@ def eof_rule(chk, program, rule='EOF'):
 def fault_path(chk, program, rule='FAULT-PATH'):
     """generic exception handlers of the receive loop and of send: under not-CLOSED -> _update_state(DISCONNECTED) then create_task(connect())"""
     for q, trigger in ((f"{BASE}._receive_loop", lambda c: is_self_call(c, '_receive_impl')),
-                       (f"{BASE}.send", lambda c: call_name(c) in ('self.writer.write', 'self.writer.drain'))):
+                       (f"{BASE}.send", lambda c: isinstance(c.func, ast.Attribute) and c.func.attr in ('write', 'drain') and (is_self_attr(c.func.value, ('writer',)) or (isinstance(c.func.value, ast.Name) and 'writer' in c.func.value.id)))):
         g = cfg_of(program, q)
         trig = nodes_calling(g, trigger)
         chk.check(bool(trig), rule, f"{q}::trigger", file=IO, line=g.fn.lineno, func=q, expected='receive / write call present', found=len(trig), nontrivial=False)
@@ -799,7 +813,7 @@ def yield_rule(chk, program, rule='YIELD'):
     q = f"{BASE}._process_queue"
     g = cfg_of(program, q)
     qa = qualifying(g, q)
-    for w in [n for n in g.nodes if n.kind == 'test' and isinstance(n.ast, ast.While)]:
+    for w in outer_loops(g):
         body = [v for v, l in g.succ[w.id] if l == 'true']
         spin = body and w.id in g.reach(body[0], avoid=qa, include_src=True) and body[0] not in qa
         chk.check(not spin, rule, f"{q}::loop", file=IO, line=w.line, func=q, expected='every iteration awaits queue.get() (suspends while the queue is empty)',
@@ -807,7 +821,7 @@ def yield_rule(chk, program, rule='YIELD'):
     # receive loop, per implementation of _receive_impl
     q = f"{BASE}._receive_loop"
     g = cfg_of(program, q)
-    for w in [n for n in g.nodes if n.kind == 'test' and isinstance(n.ast, ast.While)]:
+    for w in outer_loops(g):
         body = [v for v, l in g.succ[w.id] if l == 'true']
         calls = [nid for nid, c in nodes_calling(g, lambda c: is_self_call(c, '_receive_impl'))]
         for iq, classes in sorted(impls(program, '_receive_impl').items()):
@@ -973,7 +987,23 @@ def send_rules(chk, program):
     q = f"{BASE}.send"
     g = cfg_of(program, q)
     fn = g.fn
-    writes = nodes_calling(g, lambda c: call_name(c) == 'self.writer.write')
+    # the receiver of write/drain: self.writer itself, or a local name bound to it
+    aliases = {}
+    for n in g.nodes:
+        if n.kind == 'stmt' and isinstance(n.ast, ast.Assign) and len(n.ast.targets) == 1 and isinstance(n.ast.targets[0], ast.Name) and is_self_attr(n.ast.value, ('writer',)):
+            aliases[n.ast.targets[0].id] = n.id
+    def is_writer_call(c, meth):
+        f = c.func
+        return isinstance(f, ast.Attribute) and f.attr == meth and (is_self_attr(f.value, ('writer',)) or (isinstance(f.value, ast.Name) and f.value.id in aliases))
+    writes = nodes_calling(g, lambda c: is_writer_call(c, 'write'))
+    for nid_, c_ in writes:
+        if isinstance(c_.func.value, ast.Name):
+            a_node = aliases[c_.func.value.id]
+            stale = [x for x in g.await_nodes() if x in g.reach(a_node) and nid_ in g.reach(x) and not calls_in_node(g, x, lambda cc: is_writer_call(cc, 'drain'))]
+            chk.check(not stale, 'SEND-ORDER', f"send::writer-read-when-used::{c_.func.value.id}", file=IO, line=c_.lineno, func=q,
+                      expected='the link written to is self.writer as it is when the write happens (no suspension between reading it and using it, other than the drains of this message)',
+                      found=[f"await@line{g.nodes[x].line}:{stmt_key(g.nodes[x].ast)}" for x in stale] or 'ok',
+                      detail='' if not stale else 'a reconnect can replace self.writer while this send waits: its packets would go to the abandoned connection')
     chk.check(bool(writes), 'SEND-ORDER', 'send::writes', file=IO, line=fn.lineno, func=q, expected='self.writer.write(...)', found=len(writes), nontrivial=False)
     enc = nodes_calling(g, lambda c: is_self_call(c, '_encode_impl'))
     chk.check(len(enc) == 1, 'SEND-ENCODE-FIRST', 'send::one-encode', file=IO, line=fn.lineno, func=q, expected='one call of _encode_impl', found=len(enc))
@@ -1055,7 +1085,7 @@ def send_rules(chk, program):
                       expected='_encode_impl (once, outside the loop) dominates the first write: an encoding error writes nothing',
                       found='dominates' if g.dominates(en, nid) else 'write reachable without encoding')
         # order: write then drain inside the loop; loop iterates the encoder's list directly
-        drains = [x for x, cc in nodes_calling(g, lambda c: call_name(c) == 'self.writer.drain')]
+        drains = [x for x, cc in nodes_calling(g, lambda c: is_writer_call(c, 'drain'))]
         loop = None
         t = c
         while hasattr(t, '_parent') and t is not fn:
